@@ -186,17 +186,18 @@ def layoutAccessibles (w : World) (cv : ClassV) (own : List (Name × Ref)) : Lis
   if cv.decl.isModule then cv.accessibles.filterMap (accessibleRef w cv.decl.name own) else dictAccs own cv.dict
 
 /-- the classes a new class can take objects from: the ones along its MRO (an accessible or a declared datatype
-object found by `__init_subclass__` lies in the `__dict__` of a class of `cls.__mro__`) -/
+object found by `__init_subclass__` lies in the `__dict__` of a class of `cls.__mro__`; `mro.tail`: the classes
+other than the new one, exactly the ones `chainOf` hands to `pureDefine`) -/
 def World.restrictTo (w : World) (mro : List Name) : World :=
   { w with classes := w.classes.filter (fun c => mro.contains c.pure.decl.name) }
 
 def layoutRec (w : World) (cv : ClassV) : ClassRec :=
-  ⟨cv, (layoutAcc (w.restrictTo cv.decl.mro) cv (layoutDecl w cv)).2, (layoutDecl w cv).2,
-   layoutAccessibles (w.restrictTo cv.decl.mro) cv (layoutAcc (w.restrictTo cv.decl.mro) cv (layoutDecl w cv)).2,
+  ⟨cv, (layoutAcc (w.restrictTo cv.decl.mro.tail) cv (layoutDecl w cv)).2, (layoutDecl w cv).2,
+   layoutAccessibles (w.restrictTo cv.decl.mro.tail) cv (layoutAcc (w.restrictTo cv.decl.mro.tail) cv (layoutDecl w cv)).2,
    (layoutProp w cv).2, cv.props.filterMap (propertyRef w cv.decl.name (layoutProp w cv).2)⟩
 
 def layout (w : World) (cv : ClassV) : World :=
-  { w with heap := (layoutAcc (w.restrictTo cv.decl.mro) cv (layoutDecl w cv)).1, classes := w.classes ++ [layoutRec w cv] }
+  { w with heap := (layoutAcc (w.restrictTo cv.decl.mro.tail) cv (layoutDecl w cv)).1, classes := w.classes ++ [layoutRec w cv] }
 
 def defineClass (T : Tables) (w : World) (d : ClassDecl) : World :=
   layout w (pureDefine T (chainOf w d) d)
